@@ -155,8 +155,13 @@ def run_variants(ctx, fam, spec, inputs, kw):
     outs.append(("async-yield", core.execute(async_spec, inputs, "async", sched=s, processors=procs, **kw)))
     # node order
     if fam.get("unique_outputs", True):
-        for j in range(4 if fam["family"] == "waitdag" else 1):
-            sh = gen.shuffled(ctx.rng, sync_spec)
+        for j in range(4 if fam["family"] == "waitdag" else 3 if fam["family"] in ("gated", "loop") else 2):
+            if j == 0:
+                # the exact reverse of the generator's order: consumers before producers, targets before gates
+                sh = copy.deepcopy(sync_spec)
+                sh["nodes"].reverse()
+            else:
+                sh = gen.shuffled(ctx.rng, sync_spec)
             outs.append((f"sync-shuffled{j}", core.execute(sh, inputs, "sync", **kw)))
             # the async twin uses the SAME permutation, so that a failing run's partial values
             # are compared between the two runners on one and the same graph
@@ -250,7 +255,7 @@ def run(ctx):
         ctx.case("replay2")
         return
     for i in range(n):
-        fam = families.pick(ctx.rng, ["dag", "dag-fallback", "gated", "loop", "waitdag", "waitdag"])
+        fam = families.pick(ctx.rng, ["dag", "dag-fallback", "gated", "loop", "waitdag", "waitdag", "rewait"])
         spec, inputs, kw = fam["spec"], fam["inputs"], fam.get("kw", {})
         _one(ctx, fam, spec, inputs, kw, None)
         # one failing node per program (error collected)
